@@ -206,7 +206,7 @@ func exhaustiveDocs(thorough bool) []exDoc {
 func exhaustiveFamily(h *hx.H) {
 	s := fixedSchema()
 	e := &enumerator{s: s}
-	limit := 1000
+	limit := 500
 	if h.Thorough() {
 		limit = 2500
 	}
